@@ -255,7 +255,7 @@ def same_events(h1, h0, keep):
     )
 
 
-@contract(SIM_EV + ":SimulatorState.remove_events", props=("C10", "C02"))
+@contract(SIM_EV + ":SimulatorState.remove_events", props=("C10", "C02", "C01"))
 class SimState_remove_events:
     params = dict(self=Obj("SimulatorState"), trial_id=Int)
     unbounded = False
@@ -272,7 +272,7 @@ class SimState_remove_events:
         }
 
 
-@contract(SIM_EV + ":SimulatorState.push", props=("C10",))
+@contract(SIM_EV + ":SimulatorState.push", props=("C10", "C01"))
 class SimState_push:
     params = dict(self=Obj("SimulatorState"), event=Obj("Event"), event_time=Real)
     unbounded = False
@@ -290,7 +290,7 @@ class SimState_push:
         }
 
 
-@contract(SIM_EV + ":SimulatorState.next_until", props=("C10",))
+@contract(SIM_EV + ":SimulatorState.next_until", props=("C10", "C01"))
 class SimState_next_until:
     params = dict(self=Obj("SimulatorState"), time_until=Real)
     unbounded = False
